@@ -1,5 +1,5 @@
 # Table consumed by mkmanifest.py.  `check(id, technique, text, note, design_ref)`.
-HOOK_COMMITS = ["a20fa5a"]
+HOOK_COMMITS = ["a20fa5a", "60bb45d", "6e294da"]
 
 NOT_YET.update({
 })
@@ -138,3 +138,15 @@ check("C11",
       "after the run, report and captured mail are checked against the property.",
       "Partial: completion timings are sampled on the implementation (as C04). Trusted: Lean kernel; bash and shims; kqueue shim; sendmail capture; harness.",
       "DESIGN.md#c11")
+
+check("C02",
+      "Lean 4 invariant proof over every schedule of the flock protocol model (serialisability, no torn read, mutual exclusion) + real robsd-step processes driven along interleavings through the ROBSD_VERIF_SYNC points, compared with the model and with every serial order",
+      "Proof (Flock.step, any number of processes, any schedule, any per-process update function): the file content is always the effect of the completed writers in "
+      "lock-acquisition order (serialisable), every reader's view is the effect of a prefix of that order (no_torn_read), at most one process is between lock and unlock "
+      "(mutual_exclusion); lock_is_needed exhibits a lost update for the same steps without the lock. Correspondence: 2-3 real robsd-step -W/-R processes are stepped "
+      "through open/lock/read/truncate/write/close/unlock along random and adversarial interleavings; final file and reader outputs are compared with the model on the same "
+      "schedule and with all serial orders computed by the real binary; the system-call shape (open, LOCK_EX before read, O_TRUNC rewrite of the same path, LOCK_UN "
+      "last) is read from strace; 12 writers + 6 readers run freely as a stress.",
+      "Partial: the kernel's flock(2) semantics (one exclusive holder per inode; a waiter is granted the lock of the inode it opened) are assumed in the model, the real "
+      "kernel is exercised only on the sampled schedules. Trusted: Lean kernel; sync hook; strace; harness.",
+      "DESIGN.md#c02")
